@@ -22,9 +22,9 @@ def sig_exec(f):
     return "exec:" + k
 
 
-def exec_prop(pid, results, extra=None, n_quick=280, n_thorough=4000):
+def exec_prop(pid, results, extra=None, n_quick=280, n_thorough=4000, more=()):
     return dict(
-        src="Properties/%s.v" % pid, target="Properties/%s.vo" % pid,
+        src="Properties/%s.v" % pid, target="Properties/%s.vo" % pid, more_src=list(more),
         support=["Exec/Model.vo", "Exec/Monitors.vo", "Exec/Replay.vo"], run_targets=["Run/ExecCases.vo"],
         drivers=[dict(name="exec", n_quick=n_quick, n_thorough=n_thorough, shard=70, extra=extra,
                       results=dict(results, R_agree="agree"))],
@@ -32,11 +32,12 @@ def exec_prop(pid, results, extra=None, n_quick=280, n_thorough=4000):
 
 
 PROPS = {
-    "C01": exec_prop("C01", {"R_C01": "mon", "R_waits": "mon"}),
+    "C01": exec_prop("C01", {"R_C01": "mon", "R_waits": "mon"}, more=["Properties/C01deps.v"]),
     "C02": exec_prop("C02", {"R_C02": "mon", "R_calls": "mon", "R_waits": "mon"}),
-    "C03": exec_prop("C03", {"R_C03": "mon", "R_C03s": "mon", "R_C01": "mon", "R_calls": "mon"}),
+    "C03": exec_prop("C03", {"R_C03": "mon", "R_C03s": "mon", "R_C01": "mon", "R_calls": "mon"},
+                     more=["Properties/C03fail.v"]),
     "C06": exec_prop("C06", {"R_C06": "mon", "R_calls": "mon", "R_waits": "mon"}),
-    "C07": exec_prop("C07", {"R_C07": "mon", "R_eager": "mon"}, extra="cyclic=1"),
+    "C07": exec_prop("C07", {"R_C07": "mon", "R_eager": "mon"}, extra="cyclic=1", more=["Properties/C07progress.v"]),
     "C13": exec_prop("C13", {"R_C13": "mon", "R_calls": "mon", "R_C01": "mon"}),
-    "C14": exec_prop("C14", {"R_C14": "mon", "R_C02": "mon"}),
+    "C14": exec_prop("C14", {"R_C14": "mon", "R_C02": "mon"}, more=["Properties/C14defer.v"]),
 }
